@@ -8,6 +8,11 @@ from .. import paths
 from ..core import FUNC, call_attr, calls_in, chain, dotted, kwarg, text, walk_local, norm, is_const, const
 
 EXPLANATION = [
+    "C03.ready-gate: while the host is not ready (reset in progress) Host.on_packet still dispatches the Command Complete / Command Status whose opcode is the pending command's: a command queued behind reset() cannot lose its response and block the command semaphore.",
+    "C03.le-connection-concluded: every exit of Controller.create_le_connection has emitted an LE Connection Complete event and cleared pending_le_connection (path rule), the 'already connected to this peer' exit included.",
+    "C03.response-match: in Host.on_command_processed an event whose opcode differs from the pending command's does not resolve the pending future (path rule over the comparison). OPEN FINDING on the current tree (the mismatch is only logged), kept because the repair fails an existing test.",
+    "C03.flag-width: every `<flag>.value.to_bytes(N)` in the virtual controller fits: the flag type's highest member (evaluated from the enum source) needs at most 8N bits, or the value is masked to the field first.",
+    "C03.identity: no `is` / `is not` comparison in the anchored modules has an operand declared as a number, byte string or string (identity of equal integers holds only inside CPython's small-integer cache, so such a test is right for values up to 256 and wrong afterwards).",
     'C03.lmp-pending: Controller.send_lmp_packet returns on every path a future created by that very call and registers it under (peer, opcode) (same rule as C06.lmp-pending): a repeated procedure towards the same peer is not concluded by the stale answer of the previous one.',
     'C03.ll-coverage: every link-layer control PDU class the virtual controller constructs in a send_ll_control_pdu call has a matching `case` in on_ll_control_pdu (otherwise the HCI procedure that sent it is accepted as pending and never concluded, in one of the two roles).',
     'C03.host-complete: a Command Complete that only carries credits (opcode 0) never concludes the pending command: on_command_processed / set_result are reached only on paths where `event.command_opcode == 0` is excluded (symbolic path facts); the pending future is resolved once, under `if self.pending_response`.',
@@ -1000,36 +1005,59 @@ def flag_width(ctx):
 
 
 def response_match(ctx):
-    """each caller receives the response that carries its own command's opcode: an event whose opcode differs from the
-    pending command's does not resolve the pending future."""
+    """each caller receives the response that carries its own command's opcode.
+    (a) a command whose sender gave up (timeout, cancellation) is remembered, and its late response is dropped instead of
+        resolving the next sender;
+    (b) any other event whose opcode differs from the pending command's does not resolve the pending future either
+        (OPEN FINDING: only logged; the suite requires this leniency)."""
     R, p = ctx.r, ctx.p
     rule = 'C03.response-match'
     cp = p.find('bumble.host.Host.on_command_processed')
-    if cp is None:
-        R.bad(rule, 'bumble.host.Host.on_command_processed', 'anchor missing')
+    sc = p.find('bumble.host.Host._send_command')
+    if cp is None or sc is None:
+        R.bad(rule, 'bumble.host.Host.on_command_processed / _send_command', 'anchor missing')
         return
+    # the list of abandoned opcodes: appended to in a handler of _send_command that catches the timeout and the cancellation
+    lists = set()
+    for h in [x for x in ast.walk(sc) if isinstance(x, ast.ExceptHandler)]:
+        names = {text(t).split('.')[-1] for t in (h.type.elts if isinstance(h.type, ast.Tuple) else [h.type] if h.type is not None else [])}
+        for c in calls_in(h):
+            if call_attr(c) in ('append', 'add') and c.args and norm(c.args[0]).endswith('.op_code') and (dotted(c.func.value) or '').startswith('self.'):
+                if {'TimeoutError', 'CancelledError'} <= names or h.type is None or 'BaseException' in names:
+                    lists.add(dotted(c.func.value))
+    R.check(len(lists) == 1, rule, 'bumble.host.Host._send_command | abandoned commands remembered', f'timeout and cancellation record the opcode in {sorted(lists)}',
+            'a command whose sender gives up (response timeout, cancellation) is not remembered: its late response cannot be told from the response to the next command', p.loc(sc))
+    ab = next(iter(lists), 'self.abandoned_commands')
 
     class D(paths.Domain):
-        # value: None (unknown) | 'same' | 'differs'
+        # value: (opcode relation, abandoned?, resolved?)
         def assume(self, atom, truth, v):
-            if isinstance(atom, ast.Compare) and len(atom.ops) == 1 and isinstance(atom.ops[0], (ast.Eq, ast.NotEq)):
+            rel, aband, res = v
+            if isinstance(atom, ast.Compare) and len(atom.ops) == 1:
                 sides = {norm(atom.left), norm(atom.comparators[0])}
-                if sides == {'self.pending_command.op_code', 'event.command_opcode'}:
+                if isinstance(atom.ops[0], (ast.Eq, ast.NotEq)) and sides == {'self.pending_command.op_code', 'event.command_opcode'}:
                     differs = truth if isinstance(atom.ops[0], ast.NotEq) else not truth
-                    return ('differs' if differs else 'same',)
+                    return (('differs' if differs else 'same', aband, res),)
+                if isinstance(atom.ops[0], (ast.In, ast.NotIn)) and norm(atom.left) == 'event.command_opcode' and norm(atom.comparators[0]) == ab:
+                    isin = truth if isinstance(atom.ops[0], ast.In) else not truth
+                    return ((rel, isin, res),)
             return (v,)
 
         def event(self, node, v):
             if isinstance(node, ast.Call) and dotted(node.func) == 'self.pending_response.set_result':
-                return ((v, 'resolved'),)
+                return ((v[0], v[1], True),)
             return (v,)
-    res = paths.run(cp, D(), None)
+    res = paths.run(cp, D(), (None, None, False))
     ex = paths.normal_exits(res)
-    compared = any(v in ('same', 'differs') or (isinstance(v, tuple) and v[0] in ('same', 'differs')) for v in ex)
+    compared = any(v[0] in ('same', 'differs') for v in ex)
     R.check(compared, rule, 'bumble.host.Host.on_command_processed | opcode compared', 'the event opcode is compared with the pending command', 'the opcode of the event is no longer compared with the pending command', p.loc(cp))
-    bad = [' '.join(w) for v, w in ex.items() if v == ('differs', 'resolved')]
+    late = [' '.join(w) for v, w in ex.items() if v[0] == 'differs' and v[1] is True and v[2]]
+    seen = any(v[0] == 'differs' and v[1] is True for v in ex)
+    R.check(seen and not late, rule, 'bumble.host.Host.on_command_processed | late response dropped', 'an event for an abandoned command\'s opcode leaves the pending future alone',
+            'the late response to a command whose sender timed out / was cancelled resolves the pending future of the next command: that caller receives a response carrying another opcode', p.loc(cp), late[:2])
+    bad = [' '.join(w) for v, w in ex.items() if v[0] == 'differs' and v[1] is not True and v[2]]
     R.check(not bad, rule, 'bumble.host.Host.on_command_processed | mismatch resolves the caller', 'an event for another opcode leaves the pending future alone',
-            'an event whose opcode differs from the pending command is only logged and still resolves the pending future: after a response timeout the late answer to the previous command is handed to the next caller', p.loc(cp), bad[:2])
+            'an event whose opcode differs from the pending command (and that is not owed to an abandoned command) is only logged and still resolves the pending future: a controller answering with the wrong opcode hands the caller a foreign response', p.loc(cp), bad[:2])
 
 
 def le_connection_concluded(ctx):
